@@ -126,7 +126,8 @@ harness_main(void)
     size_t cap = 0;
     setvbuf(stdout, NULL, _IOLBF, 0);
     harness_reset();
-    bool first_op = true;        /* of the process: nothing of the library has run yet */
+    bool first_op = true;
+    unsigned nops = 0;        /* of the process: nothing of the library has run yet */
     while (getline(&line, &cap, stdin) > 0) {
         char *argv[MAXTOK];
         int argc = 0;
@@ -145,6 +146,8 @@ harness_main(void)
         if (!first_op) harness_noise();
 #endif
         first_op = false;
+        /* what an earlier library call of the application left in errno is no business of the code under test */
+        errno = (nops++ % 3 == 0) ? ERANGE : (nops % 3 == 1 ? EINTR : 0);
         harness_op(argc, argv);
         putchar('\n');
     }
